@@ -475,7 +475,8 @@ def minimise(check, case, sig, budget_runs=250, budget_s=60.0, log=None):
 def write_replay(prop, case, res, sig, known_entry=None):
     d = os.path.join(VERIF, 'replays')
     os.makedirs(d, exist_ok=True)
-    path = os.path.join(d, f'{prop}-{case["seed"]}.json')
+    tag = hashlib.blake2b(sig.encode(), digest_size=3).hexdigest()
+    path = os.path.join(d, f'{prop}-{case["seed"]}-{tag}.json')
     detail = None
     for s, dt in res['violations']:
         if s == sig:
